@@ -121,6 +121,10 @@ func c17Enumerate(tier string, yield func(any)) {
 	yield(&c17Case{Kind: "reject", Reject: "ec-body-in-rsa-wrapper"})
 	yield(&c17Case{Kind: "reject", Reject: "pem-around-garbage"})
 	yield(&c17Case{Kind: "reject", Reject: "pem-around-empty"})
+	// keys in containers other than unencrypted PKCS#8: an error (or the key), never silently nothing
+	yield(&c17Case{Kind: "reject", Reject: "sec1-in-EC-PRIVATE-KEY-block"})
+	yield(&c17Case{Kind: "reject", Reject: "pkcs1-in-RSA-PRIVATE-KEY-block"})
+	yield(&c17Case{Kind: "reject", Reject: "pkcs8-shell-in-ENCRYPTED-PRIVATE-KEY-block"})
 	rsaDER := FixtureKeyDER("RSA-1024-0")
 	step := 1
 	if tier == "quick" {
@@ -502,6 +506,9 @@ func c17Reject(x *engine.Ctx, c *c17Case) {
 	case "pem-around-empty":
 		pemLevel = true
 		der = []byte{}
+	case "sec1-in-EC-PRIVATE-KEY-block", "pkcs1-in-RSA-PRIVATE-KEY-block", "pkcs8-shell-in-ENCRYPTED-PRIVATE-KEY-block":
+		c17OtherContainer(x, c)
+		return
 	default:
 		ci := refx509.CurveByName(c.Curve)
 		n := ci.Curve.Params().N
@@ -584,6 +591,47 @@ func c17Reject(x *engine.Ctx, c *c17Case) {
 	x.Outcome("rejected " + what)
 }
 
+// c17OtherContainer: a private key block that is not unencrypted PKCS#8. gopki may refuse it with an
+// error or read the key; it must not return "no key, no error", which callers take for an entity without key.
+func c17OtherContainer(x *engine.Ctx, c *c17Case) {
+	var label string
+	var der []byte
+	switch c.Reject {
+	case "sec1-in-EC-PRIVATE-KEY-block":
+		k, err := x509.ParsePKCS8PrivateKey(FixtureKeyDER("P-256-0"))
+		if err != nil {
+			x.Cap("fixture: " + err.Error())
+			return
+		}
+		der, _ = x509.MarshalECPrivateKey(k.(*ecdsa.PrivateKey))
+		label = "EC PRIVATE KEY"
+	case "pkcs1-in-RSA-PRIVATE-KEY-block":
+		k, err := x509.ParsePKCS8PrivateKey(FixtureKeyDER("RSA-1024-0"))
+		if err != nil {
+			x.Cap("fixture: " + err.Error())
+			return
+		}
+		der = x509.MarshalPKCS1PrivateKey(k.(*rsa.PrivateKey))
+		label = "RSA PRIVATE KEY"
+	default:
+		// EncryptedPrivateKeyInfo ::= SEQUENCE { AlgorithmIdentifier (PBES2), OCTET STRING }
+		der = refder.Seq(refder.Seq(refder.MustOID("1.2.840.113549.1.5.13"), refder.Seq()), refder.EncOctets(bytes.Repeat([]byte{0x5c}, 64)))
+		label = "ENCRYPTED PRIVATE KEY"
+	}
+	x.Nontrivial("reject " + c.Reject)
+	pf, err := cert.ReadPem(refx509.EncodePem(label, der))
+	switch {
+	case err != nil && pf.PrivateKey != nil:
+		x.Violation("C17/reject/error-but-key-object-returned "+c.Reject, fmt.Sprintf("ReadPem returned an error AND PrivateKey = %T", pf.PrivateKey))
+	case err != nil:
+		x.Outcome("rejected " + c.Reject)
+	case pf.PrivateKey == nil:
+		x.Violation("C17/reject/silently-ignored "+c.Reject, fmt.Sprintf("a %q block was neither read nor refused: ReadPem returned no key and no error, so the entity looks as if it had no key", label))
+	default:
+		x.Outcome("read " + c.Reject)
+	}
+}
+
 func hexShort(b []byte) string {
 	if len(b) > 40 {
 		return fmt.Sprintf("%x...", b[:40])
@@ -595,7 +643,7 @@ func init() {
 	register(&engine.Check{
 		ID:          "C17",
 		Level:       "exploration",
-		Rule:        "10 curves x boundary scalars (1,2,3,n-1,n-2,n/2, the largest and smallest value of every octet length 1..len-1, i.e. every number of leading zero octets, 8 mid-range; 70..150 per curve) through cert.WritePrivateKeyToPem -> cert.ReadPem, the reference PKCS#8 decoder, crypto/x509 in both directions (NIST) , 8 reference-built PKCS#8 layouts (curve OID outer / inner / both, with and without embedded public key, compressed public point) and the minimal-length (leading zeros stripped) encodings; 10 RSA fixture keys 1024..4096; artifact files for all 16 block orders over {cert,key,request} x hash line x 4 key types through cert.ReadPem, and the 15 non-empty orders as an entity's artifact read by opening the directory with the hash line first / after the first block / last and with a blank line at the end; rejection inputs: scalar n, n+1, 2^(8len)-1, unknown/missing curve, ECPrivateKey version 0/2, swapped RSA/EC bodies, unknown algorithm, every strict prefix of a valid EC key per curve and of an RSA key, PEM around non-DER. non-trivial = distinct case that reached a comparison",
+		Rule:        "10 curves x boundary scalars (1,2,3,n-1,n-2,n/2, the largest and smallest value of every octet length 1..len-1, i.e. every number of leading zero octets, 8 mid-range; 70..150 per curve) through cert.WritePrivateKeyToPem -> cert.ReadPem, the reference PKCS#8 decoder, crypto/x509 in both directions (NIST) , 8 reference-built PKCS#8 layouts (curve OID outer / inner / both, with and without embedded public key, compressed public point) and the minimal-length (leading zeros stripped) encodings; 10 RSA fixture keys 1024..4096; artifact files for all 16 block orders over {cert,key,request} x hash line x 4 key types through cert.ReadPem, and the 15 non-empty orders as an entity's artifact read by opening the directory with the hash line first / after the first block / last and with a blank line at the end; rejection inputs: scalar n, n+1, 2^(8len)-1, unknown/missing curve, ECPrivateKey version 0/2, swapped RSA/EC bodies, unknown algorithm, every strict prefix of a valid EC key per curve and of an RSA key, PEM around non-DER, and SEC1 / PKCS#1 / encrypted key blocks (an error or the key, never silently nothing). non-trivial = distinct case that reached a comparison",
 		Bound:       map[string]string{"scalars": "boundary values only (any valid scalar is unbounded)", "rsa": "fixture keys 1024,1536,2048,3072,4096 (two each)"},
 		Assumptions: []string{"outer PKCS#8 version, scalar 0 and trailing bytes after a complete DER value are not in the rejection alphabet (neither gopki nor the standard library rejects them)", "crypto/x509 is the 'standard library parser' of the statement"},
 		Budget:      budgets(quickBudget, thoroughBudget),
